@@ -534,6 +534,15 @@ def main(argv):
         ctx.fail("infrastructure", "check", str(e))
         ctx.obligation("infrastructure", False, str(e))
     cands = []
+    if hasattr(mod, "probe_known"):
+        # witnesses of the open known findings, replayed on the implementation in every run: a finding that is
+        # still there prints its KNOWN-FINDING line, anything else these inputs show is reported as a violation
+        try:
+            cands.extend(mod.probe_known(ctx))
+        except Exception:
+            import traceback
+
+            ctx.fail("oracle", "known-finding-probe-crashed", traceback.format_exc())
     if ctx.failures or (ctx.thorough and getattr(mod, "SWEEP_IN_THOROUGH", True)):
         hints = [f.get("hint") for f in ctx.failures if f.get("hint")]
         try:
